@@ -296,6 +296,86 @@ def h_is_empty():
     return h
 
 
+def h_serialize_keys(prog):
+    """derived `Serialize for TestCaseConfig` (YAML front-matter `defaults`, json / yaml renderers) against a recording serializer:
+    a key is written iff it is set — whatever its value"""
+    from props.c16 import sym_tcc, SCALARS
+    from mir_models import to_symopt, ok
+    from mir_exec import UNIT, VecBuf as VB
+
+    class SerModels(YamlModels):
+        def __init__(self):
+            super().__init__()
+            ins = lambda pat, fn: self.table.insert(0, (re.compile("^(?:%s)$" % pat), fn))
+            SER = r"<__S as (?:[a-z_:]+::)?Serializer>"
+            ST = r"<" + SER + r"::SerializeStruct as (?:[a-z_:]+::)?SerializeStruct>"
+            ins(SER + r"::serialize_struct", lambda c, m, a: ok(Agg("RecordingStruct", None, [a[2], VB([]), VB([])])))
+
+            def field(c, m, a):
+                deref(a[0]).fields[1].items.append(StringBuf(list(as_str(a[1]).chars)))
+                return ok(UNIT)
+            ins(ST + r"::serialize_field::<.*>", field)
+
+            def skip(c, m, a):
+                deref(a[0]).fields[2].items.append(StringBuf(list(as_str(a[1]).chars)))
+                return ok(UNIT)
+            ins(ST + r"::skip_field", skip)
+            ins(ST + r"::end", lambda c, m, a: ok(deref(a[0])))
+
+    def mk(env_n):
+        def f(ctx):
+            cfg = sym_tcc(ctx, "c", env_n)
+            ctx.notes["cfg"] = cfg
+            return [new_ref(cfg), Agg("RecordingSerializer", None, [])]
+        return f
+
+    def post(ctx, args, kind, value):
+        if kind != "return" or value.variant != "Ok":
+            return False
+        rec = value.fields[0]
+        written = ["".join(chr(c.v) for c in as_str(k).chars) for k in rec.fields[1].items]
+        if len(set(written)) != len(written):
+            return False
+        cfg = ctx.notes["cfg"]
+        conds = []
+        for k in SCALARS:
+            present = to_symopt(field_of(cfg, k)).present.z()
+            conds.append(present if k in written else z3.Not(present))
+        has_env = len(field_of(cfg, "environment").entries) > 0
+        if ("environment" in written) != has_env:
+            return False
+        if set(written) - set(SCALARS) - {"environment"}:
+            return False
+        n = rec.fields[0]
+        if not (n.concrete and n.v == len(written)):
+            return False
+        return z3.And(conds)
+    fn = [n for n in prog.funcs if re.search(r"config::_::<impl at src/config\.rs[^>]*>::serialize$", n) and "&TestCaseConfig" in prog.funcs[n].params[0][1]]
+    h = e2.Harness("serialize_writes_set_keys", fn[0] if len(fn) == 1 else "TestCaseConfig::serialize", [("every subset of keys, any values, %d variable(s)" % n, mk(n)) for n in (0, 1)],
+                   post, native="tcc_yaml_roundtrip", judge=lambda a, k, v: (False, "", ""),
+                   describe="the derived Serialize of TestCaseConfig writes exactly the keys that are set (any value), under their field names, and announces that number",
+                   bound="every subset of the seven scalar keys with any values (codes: all i32), 0 or 1 variables")
+    h.models_cls = SerModels
+    return h
+
+
+def replay_serialize(rep, h, res):
+    from props.c16 import tcc_to_json
+    for model, r in res.raw_witnesses[:4]:
+        w = tcc_to_json(r.ctx.notes["cfg"], model)
+        if isinstance(w.get("skip_document_code"), int) and w["skip_document_code"] >= 1 << 31:
+            w["skip_document_code"] -= 1 << 32
+        nk, nv = NAT.call("tcc_yaml_roundtrip", [w])
+        set_keys = sorted(k for k, v in w.items() if v not in (None, []))
+        if nk != "return" or not nv.get("equal"):
+            rep.violation("yaml-rendering:%s" % "+".join(k for k in set_keys if k in str(nv.get("lost", set_keys))),
+                          "the configuration %s rendered as YAML (%r) reads back as %s" % ({k: w[k] for k in set_keys}, nv.get("rendered") if isinstance(nv, dict) else nv,
+                                                                                         nv.get("parsed") if isinstance(nv, dict) else ""),
+                          {"kind": "eval", "fn": "tcc_yaml_roundtrip", "args": [w], "native": [nk, nv], "harness": h.name})
+        else:
+            rep.mismatches.append("%s: solver witness %s did not reproduce natively: %s" % (h.name, w, str(nv)[:200]))
+
+
 def replay_is_empty(rep, h, res):
     from props.c16 import tcc_to_json
     for model, r in res.raw_witnesses[:4]:
@@ -391,6 +471,10 @@ def run(pid, tier):
         res = e2.run_with_raw(prog, h)
         replay(rep, h, res, kind)
         e2.record(rep, h, res)
+    hy = h_serialize_keys(prog)
+    resy = e2.run_with_raw(prog, hy)
+    replay_serialize(rep, hy, resy)
+    e2.record(rep, hy, resy)
     he = h_is_empty()
     rese = e2.run_with_raw(prog, he)
     replay_is_empty(rep, he, rese)
